@@ -51,6 +51,34 @@ def plan(seed):
         ev.append(("act", {"a": "call", "mod": m, "fn": n, "style": "direct", "pos": [], "kw": []}))
     ev.append(("act", call))
     jobs.append(("after-earlier-evaluations-in-process", ev, dict(store_kind="memory")))
+    # source edits made while the process lives (module rewritten and reloaded) that leave the compiled code of the function
+    # unchanged: a comment, a default value, a decorator path; then the revert.  Each version is also analysed by a fresh process.
+    import copy
+    reach = P.reachable(prog, *prog["root"])
+    versions = []
+    p1 = copy.deepcopy(prog)
+    m, n = rng.choice(reach)
+    P.find_func(p1, m, n)["comment"] = "reviewed"
+    versions.append(("comment", p1))
+    with_def = [(m, n, i) for (m, n) in reach for i, q in enumerate(P.find_func(prog, m, n)["params"]) if q.get("default") is not None]
+    if with_def:
+        p2 = copy.deepcopy(p1)
+        m, n, i = rng.choice(with_def)
+        old = P.find_func(p2, m, n)["params"][i]["default"]
+        P.find_func(p2, m, n)["params"][i]["default"] = rng.choice([d for d in P.DEFAULTS if d != old])
+        versions.append(("default-value", p2))
+    if datas:
+        p3 = copy.deepcopy(versions[-1][1])
+        m, n = rng.choice(datas)
+        P.find_func(p3, m, n)["annot"] += "_moved"
+        versions.append(("decorator-path", p3))
+    versions.append(("revert", copy.deepcopy(prog)))
+    ev = [("prog", prog), ("act", call)]
+    for kind, pv in versions:
+        ev += [("act", {"a": "reprog", "prog": pv}), ("act", call)]
+    jobs.append(("in-process-source-edits", ev, dict(store_kind="memory")))
+    for kind, pv in versions:
+        jobs.append(("fresh:" + kind, [("prog", pv), ("act", call)], dict(store_kind="memory")))
     return {"seed": seed, "prog": prog, "call": call, "jobs": jobs}
 
 
@@ -72,7 +100,7 @@ def redefinition_scenario():
 def run_job(job):
     name, ev, kw = job
     try:
-        recs = hist.run_history(ev, run_ref=False, run_model=(name in ("baseline", "after-earlier-evaluations-in-process")), **kw)
+        recs = hist.run_history(ev, run_ref=False, run_model=(name in ("baseline", "after-earlier-evaluations-in-process", "in-process-source-edits")), **kw)
         return recs
     except Exception as e:  # noqa
         return {"error": str(e)[-1000:]}
@@ -82,7 +110,8 @@ def run(rep, tier, seed, proof_ok):
     n_prog = 5 if tier == "quick" and proof_ok else 50
     rep.rule = (f"{n_prog} random pipelines x {{PYTHONHASHSEED 0/1/7/random, other working directory, fresh package directory per run, "
                 "store kinds local/memory/noop/local+object-cache, extra_debug off, graph export on, after earlier evaluations and a "
-                "variable change + revert in the same process}: every signature map must equal the baseline and the Coq model's; plus the "
+                "variable change + revert in the same process, source edits that keep the compiled code (comment / default value / decorator path / "
+                "revert) made while the process lives vs a fresh process on the same files}: every signature map must equal the baseline and the Coq model's; plus the "
                 f"pinned corpus corpus/C03 ({len(corpus.corpus_programs())} programs): implementation and model must reproduce the "
                 "committed signatures byte for byte; distinct = distinct (program, variant); non-trivial = the evaluation keeps at least one path")
     plans = [plan(seed * 1000 + i) for i in range(n_prog)]
@@ -95,6 +124,7 @@ def run(rep, tier, seed, proof_ok):
     vcount = {}
     for pl in plans:
         base = None
+        inproc = []
         for (name, ev, kw) in pl["jobs"]:
             recs = flat_res[k]
             k += 1
@@ -106,7 +136,18 @@ def run(rep, tier, seed, proof_ok):
             sig = o["sigs"] if o["sigs"] is not None else o["out"]
             rep.case(f"{pl['seed']}:{name}", nontrivial=bool(o["sigs"]))
             vcount[name] = vcount.get(name, 0) + 1
-            if name == "baseline":
+            if name == "in-process-source-edits":
+                inproc = [hist.impl_obs(r) for r in recs if r["act"]["a"] == "call"][1:]
+                inproc = [x["sigs"] if x["sigs"] is not None else x["out"] for x in inproc]
+                continue_cmp = True
+            elif name.startswith("fresh:"):
+                idx = [j[0] for j in pl["jobs"] if j[0].startswith("fresh:")].index(name)
+                if idx < len(inproc) and inproc[idx] != sig:
+                    rep.violation("history-dependent:in-process-source-edit:" + name[6:],
+                                  f"after the source edit '{name[6:]}' made while the process lives the signatures are {str(inproc[idx])[:80]}, a fresh "
+                                  f"process computes {str(sig)[:80]} for the same files", {"variant": name, "events": [j for j in pl["jobs"] if j[0] == "in-process-source-edits"][0][1],
+                                                                                       "in_process": inproc[idx], "fresh": sig})
+            elif name == "baseline":
                 base = sig
             elif sig != base:
                 rep.violation("env-dependent:" + name.split("=")[0], f"signatures differ between the baseline and variant '{name}'",
